@@ -38,7 +38,7 @@ def val_match(impl_v, spec_v):
 
 
 LOCKED_STRUCTURAL = ('create', 'createarch', 'destroy', 'destroynow', 'assign', 'assignid', 'remove', 'removeid', 'build')
-GUARDED_QUERIES = ('valid', 'getconst', 'getmut', 'has', 'archof', 'clone', 'removeshared', 'getshared')
+GUARDED_QUERIES = ('valid', 'getconst', 'getmut', 'has', 'archof', 'clone', 'clonemap', 'removeshared', 'getshared')
 
 
 def strip_stamps(line):
@@ -163,8 +163,11 @@ def tier_a(impl, spec, scripts, aspects):
                         break
                 if fail:
                     break
-            if opname == 'clone':
+            if opname in ('clone', 'clonemap'):
                 r = (b['tags'].get('R') or ['R'])[0].split()
+                if len(r) > 1 and r[1] == 'badmap':
+                    fail = dict(aspect='harmless' if 'harmless' in aspects else 'valid', what='clone with a caller-supplied map recorded a wrong (source, copy) pair or recorded one although nothing was cloned')
+                    break
                 if len(r) > 1 and r[1].startswith('#'):
                     cloned.add(r[1])      # cloning fires afterClone, not afterAssign: not judged here
             if depth > 0 and opname in LOCKED_STRUCTURAL and len(opt) > 2 and opt[2].startswith('#'):
